@@ -317,6 +317,9 @@ def seeded(names: list[str]) -> int:
             continue
         meta = json.loads((path / 'meta.json').read_text())
         prop = meta['property']
+        if meta.get('neutralised_by') and not names:
+            print(f'{path.name} ({prop}): skipped - no longer breaks the property since {meta["neutralised_by"]["commit"]}')
+            continue
         top = tempfile.mkdtemp(prefix='verif-seeded-')
         try:
             shutil.copytree(REPO / 'forml', os.path.join(top, 'forml'), ignore=shutil.ignore_patterns('__pycache__'))
